@@ -37,11 +37,12 @@ PP(s) ==
     [] s = "p.a.y" -> <<"p", "a", "y">>
     [] s = "p.b.y" -> <<"p", "b", "y">>
     [] s = "p.x" -> <<"p", "x">>
+    [] s = "p.y" -> <<"p", "y">>            \* a module reached under a second name (`import p.a as y` in p)
     [] s = "p.a.x.y" -> <<"p", "a", "x", "y">>   \* ... and one level further: the walk has to CROSS member x
     [] s = "p.b.x.y" -> <<"p", "b", "x", "y">>
     [] OTHER -> <<s>>
 
-PathStrs == Mods \cup {"zz", "p.zz", "p.b.x", "p.a.x", "p.a.y", "p.b.y", "p.x", "p.a.x.y", "p.b.x.y"}
+PathStrs == Mods \cup {"zz", "p.zz", "p.b.x", "p.a.x", "p.a.y", "p.b.y", "p.x", "p.y", "p.a.x.y", "p.b.x.y"}
 
 \* name of the pseudo member the visitor creates for `from s import *`
 StarName(s) ==
@@ -59,6 +60,7 @@ StarName(s) ==
     [] s = "p.a.y" -> "p/a/y/*"
     [] s = "p.b.y" -> "p/b/y/*"
     [] s = "p.x" -> "p/x/*"
+    [] s = "p.y" -> "p/y/*"
     [] s = "p.a.x.y" -> "p/a/x/y/*"
     [] s = "p.b.x.y" -> "p/b/x/y/*"
     [] OTHER -> "?/*"
